@@ -162,8 +162,12 @@ def gen_case(rng, idx, tier):
     cons, inside = {}, True
     start = {}
     for k in sel:
-        v = x0[k] if (r.random() < 0.9 or kind in ("nback", "meta")) else x0[k] + r.uniform(-1, 1)
+        v = x0[k] if (r.random() < 0.9 or kind == "nback") else x0[k] + r.uniform(-1, 1)
         start[k] = v
+        if kind == "meta":
+            if v != x0[k]:
+                continue        # (no constraint then: it would have to contain both values)
+            v = x0[k]           # the meta-optimiser starts from the function's own point, whatever the list says
         if r.random() < (0.6 if pol != "k" else 0.25):
             m = xs[k] if xs is not None else v
             w = r.random()
@@ -226,12 +230,16 @@ def gen_case(rng, idx, tier):
     else:
         lines.append("hint %s 0 0 %d" % (hx(0.0), int(full)))
     lines.append("init %d %s" % (len(sel), " ".join("%d %s %s" % (k, hx(start[k]), con_s(cons.get(k))) for k in sel)))
+    if r.random() < 0.05:
+        lines.append("clone")
     u = r.random()
     if u < 0.7:
         lines.append("optimize")
     elif u < 0.85:
         for _ in range(r.randint(1, 4)):
             lines.append("step")
+            if r.random() < 0.1:
+                lines.append("clone")
         lines.append("optimize")
     else:
         lines.append("optimize")
